@@ -1,7 +1,7 @@
 CFG = dict(
     props_file='Props/C06.v',
     coq_targets=['Checks/C06.vo', 'Props/C06.vo'],
-    bin='groupa', bin_args=['c06'], n_quick=60, n_thorough=400, thorough_args=['all-configs'],
+    bin='groupa', bin_args=['c06'], n_quick=80, n_thorough=400, thorough_args=['all-configs'],
     level_text='Aggregation specification eval_clause_agg (groups = distinct values of the plain head variables over the distinct satisfying valuations, wildcards as anonymous variables; count/sum/min/max/count_distinct over them; saturating i64 sum) is the oracle: every generated aggregation rule is executed under 9 (quick) or 32 (thorough) configurations and each answer must equal the specification applied to the perfect model of the lower strata. C06_group_once (one row per group) is proved for all inputs.',
     level_note='Trusted: Coq kernel; hand-written Gallina model of clause semantics and of the engine strategy (Model/Datalog.v) — IRBuilder, the optimizer passes and Differential Dataflow are validated by the correspondence, not derived; harness printers.',
     corr_name='eval_clause_agg vs IQLEngine',
